@@ -3,7 +3,7 @@ import serverlib as sl
 import srvprops
 
 PROP = "C14"
-THEOREMS = ["C14_limits_every_reachable_state", "C14_connection_limit", "C14_open_beyond_limit_refused", "C14_closed_connection_slot_released", "C14_hangup_slot_released", "C14_subscription_limit", "C14_subscription_zero_example", "C14_channel_capacity_at_admission", "C14_payload_limit", "C14_payload_limit_server_cap", "C14_acl_entry_limit", "C14_inflight_zero", "C14_capacity_not_invariant_after_config_change", "C14_channel_limit", "C14_channel_created_only_with_room", "C14_channel_slot_released", "C14_channel_limit_example", "C14_source_limits_wiring", "C14_adjusted_limit_never_exceeds_configuration", "C14_adjusted_limit_cases"]
+THEOREMS = ["C14_limits_every_reachable_state", "C14_connection_limit", "C14_open_beyond_limit_refused", "C14_closed_connection_slot_released", "C14_hangup_slot_released", "C14_subscription_limit", "C14_subscription_zero_example", "C14_channel_capacity_at_admission", "C14_payload_limit", "C14_payload_limit_server_cap", "C14_acl_entry_limit", "C14_inflight_zero", "C14_capacity_not_invariant_after_config_change", "C14_channel_limit", "C14_channel_created_only_with_room", "C14_channel_slot_released", "C14_channel_limit_example", "C14_source_limits_wiring", "C14_adjusted_limit_never_exceeds_configuration", "C14_adjusted_limit_cases", "C14_inflight_counter_is_the_number_in_flight", "C14_inflight_refusal_means_full_window", "C14_inflight_snapshot_drifts_refuted", "C14_source_inflight_decrements_live_counter"]
 
 
 def boot_stage(thorough, violations, stats):
@@ -45,9 +45,24 @@ def init_stage(thorough, violations, stats):
                 violations.append((PROP, "start-up negotiation differs from Model/Link.adjust_limit: " + str(obs[i])[:200], cases[i], 0))
 
 
+def inflight_stage(thorough, violations, stats):
+    """the per-connection in-flight counter does not drift: requests suspended together in the modulator and answered in
+    arrival order / in reverse order, then a full window of requests that are all in flight at once must be admitted"""
+    import c13
+    progs = [(("JOIN_new", "JOIN_new"), "park2_inorder"), (("BROADCAST", "BROADCAST"), "park2_inorder"), (("JOIN_new", "BROADCAST"), "park2_reverse"),
+             (("LEAVE_member", "JOIN_behalf"), "park2_inorder")]
+    cases = [c13.build_case(p, pat) for p, pat in progs]
+    stats["inflight_window_programs"] = len(cases)
+    for (idx, rc, ob), case in zip(map(c13.run_program, list(enumerate(cases))), cases):
+        for what in c13.analyse(case, rc, ob, {}, {}):
+            if "in flight" in what or "in-flight" in what or "window" in what:
+                violations.append((PROP, what, case, 0))
+
+
 def both_stages(thorough, violations, stats):
     boot_stage(thorough, violations, stats)
     init_stage(thorough, violations, stats)
+    inflight_stage(thorough, violations, stats)
 
 
 def run(tier, replay=None):
